@@ -234,6 +234,8 @@ class Exec:
             if not cands:
                 cands = [t.cls]
             o = SObj(cands, name, lazy=True)
+            if self.contract is not None and name in getattr(self.contract, "dynamic_types", {}):
+                o._ftypes.update(self.contract.dynamic_types[name])  # sorts of nested objects' fields, by access path
             self.inputs[name + "#obj"] = (o, t)
             return o
         if isinstance(t, ty.TList):
